@@ -105,16 +105,6 @@ package ucfg
 //@ pure
 //@ ensures result == f.a
 
-//@ func raiseExpectedObject
-//@ trusted
-//@ pure
-//@ ensures result != nil
-
-//@ func raiseMissing
-//@ trusted
-//@ pure
-//@ ensures result != nil
-
 //@ func (idxField).String
 //@ trusted
 //@ pure
@@ -444,11 +434,6 @@ package ucfg
 //@ ensures typeof(self) == cfgSub && old(ctxof(self).parent) == nil ==> ctxof(self) == ctx
 //@ ensures typeof(self) == cfgSub && old(ctxof(self).parent) != nil ==> ctxof(self) == old(ctxof(self))
 
-//@ func raiseIndexOutOfBounds
-//@ trusted
-//@ pure
-//@ ensures result != nil
-
 //@ func (idxField).SetValue
 //@ props C07 C12 C20
 //@ requires opts != nil && elem != nil && v != nil
@@ -593,11 +578,6 @@ package ucfg
 //@ ghost func about(e error) value
 //@ ghost func reasonOf(e error) error
 
-//@ func raiseConversion :: opts, v, err, to -> result
-//@ trusted
-//@ pure
-//@ ensures result != nil && about(result) == v && reasonOf(result) == err
-
 //@ pred fitsInt(x int64, bits int) := (bits == 8 ==> -128 <= x && x <= 127) && (bits == 16 ==> -32768 <= x && x <= 32767) && (bits == 32 ==> -2147483648 <= x && x <= 2147483647)
 //@ pred fitsUint(x uint64, bits int) := (bits == 8 ==> x <= 255) && (bits == 16 ==> x <= 65535) && (bits == 32 ==> x <= 4294967295)
 
@@ -652,13 +632,9 @@ package ucfg
 //@ props C03 C14
 //@ tagged-only C14
 //@ pure
+//@ requires err != nil ==> v != nil
 //@ ensures [iff] (result == nil) == (err == nil)
 //@ ensures [names_setting @C14] err != nil ==> about(result) == v && reasonOf(result) == err
-
-//@ func raiseInvalidDuration :: v, err -> result
-//@ trusted
-//@ pure
-//@ ensures result != nil && about(result) == v
 
 //@ func reifyDuration :: opts, val, t -> result, err
 //@ props C03 C14
@@ -1186,17 +1162,12 @@ package ucfg
 //@ ghost func pathVal(p cfgPath, c *Config) value
 //@ ghost func pathStr(p cfgPath) string
 //@ ghost func rootOf(c *Config) *Config
-//@ ghost func cyclic(e error) bool
+//@ pred cyclic(e error) := typeof(e) == baseError && e.(baseError).reason == ErrCyclicReference
 
 //@ func (cfgPath).String :: p -> r
 //@ trusted
 //@ pure
 //@ ensures r == pathStr(p)
-
-//@ func raiseCyclicErr
-//@ trusted
-//@ pure
-//@ ensures result != nil && cyclic(result)
 
 //@ func cfgRoot :: cfg -> r
 //@ trusted
@@ -1739,16 +1710,19 @@ package ucfg
 //@ sweep
 //@ rvwrites nothing
 
-//@ func raiseInlineNeedsObject
-//@ props C07
-//@ sweep
+//@ func messageMeta :: message, meta -> r
+//@ props C14 C07
+//@ nonil
+//@ pure
 //@ rvwrites nothing
 
 //@ func raiseCritical :: reason, message -> result
 //@ props C14 C07
-//@ sweep
+//@ nonil
+//@ pure
 //@ rvwrites nothing
 //@ ensures [typed] result != nil && typeof(result) == criticalError
+//@ ensures [carries] result.(criticalError).baseError.reason == reason && result.(criticalError).baseError.class == ErrImplementation
 
 //@ func accessField :: structVal, fieldIdx, opts -> info, skip, err
 //@ props C13 C07
@@ -1783,3 +1757,202 @@ package ucfg
 //@ modifies *
 //@ ensures [untouched_on_error] result != nil && old(allocated(rvRootOf(chasedP(orig)))) && rvRootOf(chasedP(orig)) != pointeeStore() ==> rvver(rvRootOf(chasedP(orig))) == old(rvver(rvRootOf(chasedP(orig))))
 //@ loop 1 invariant old(allocated(rvRootOf(chasedP(entry(orig))))) && rvRootOf(chasedP(entry(orig))) != pointeeStore() ==> rvver(rvRootOf(chasedP(entry(orig)))) == old(rvver(rvRootOf(chasedP(entry(orig)))))
+
+// ---------------------------------------------------------------- C14: the raise sites (error.go)
+// Every constructor is proved to return a non-nil typed error (baseError or criticalError) whose reason is the
+// sentinel or the error it is given and - for the constructors that record one - whose path is the path of the
+// context / value / configuration it is given. Message texts (fmt) are named by msgPath, not proved.
+
+//@ iface value.typ :: self, opts -> t, err
+//@ pure
+
+//@ func raiseDuplicateKey :: cfg, name -> result
+//@ props C14 C07
+//@ nonil
+//@ requires cfg != nil
+//@ pure
+//@ rvwrites nothing
+//@ ensures [typed] result != nil && typeof(result) == baseError && result.(baseError).class == ErrConfig
+//@ ensures [reason] result.(baseError).reason == ErrDuplicateKey
+//@ ensures [path] (pathOfCtx(cfg.ctx, ".") == "" ==> result.(baseError).path == name) && (pathOfCtx(cfg.ctx, ".") != "" ==> result.(baseError).path == cat3(pathOfCtx(cfg.ctx, "."), ".", name))
+
+//@ func raiseMissingMsg :: c, field, message -> result
+//@ props C14 C07
+//@ nonil
+//@ requires c != nil
+//@ pure
+//@ rvwrites nothing
+//@ ensures [typed] result != nil && typeof(result) == baseError && result.(baseError).class == ErrConfig
+//@ ensures [reason] result.(baseError).reason == ErrMissing
+//@ ensures [path] (pathOfCtx(c.ctx, ".") == "" ==> result.(baseError).path == field) && (pathOfCtx(c.ctx, ".") != "" ==> result.(baseError).path == cat3(pathOfCtx(c.ctx, "."), ".", field))
+
+//@ func raiseMissing :: c, field -> result
+//@ props C14 C07
+//@ nonil
+//@ requires c != nil
+//@ pure
+//@ rvwrites nothing
+//@ ensures [typed] result != nil && typeof(result) == baseError && result.(baseError).class == ErrConfig
+//@ ensures [reason] result.(baseError).reason == ErrMissing
+//@ ensures [path] (pathOfCtx(c.ctx, ".") == "" ==> result.(baseError).path == field) && (pathOfCtx(c.ctx, ".") != "" ==> result.(baseError).path == cat3(pathOfCtx(c.ctx, "."), ".", field))
+
+//@ func raiseMissingArr :: ctx, meta, idx -> result
+//@ props C14 C07
+//@ nonil
+//@ pure
+//@ rvwrites nothing
+//@ ensures [typed] result != nil && typeof(result) == baseError && result.(baseError).class == ErrConfig
+//@ ensures [reason] result.(baseError).reason == ErrMissing
+//@ ensures [path] result.(baseError).path == pathOfCtx(ctx, ".")
+
+//@ func raiseIndexOutOfBounds :: opts, value, idx -> result
+//@ props C14 C07
+//@ nonil
+//@ requires value != nil
+//@ pure
+//@ rvwrites nothing
+//@ ensures [typed] result != nil && typeof(result) == baseError && result.(baseError).class == ErrConfig
+//@ ensures [reason] result.(baseError).reason == ErrIndexOutOfRange
+//@ ensures [path] result.(baseError).path == pathOfCtx(ctxof(value), ".")
+
+//@ func raiseNoParse :: ctx, meta -> result
+//@ props C14 C07
+//@ nonil
+//@ pure
+//@ rvwrites nothing
+//@ ensures [typed] result != nil && typeof(result) == baseError && result.(baseError).class == ErrConfig
+//@ ensures [reason] result.(baseError).reason == ErrNoParse
+//@ ensures [path] result.(baseError).path == pathOfCtx(ctx, ".")
+
+//@ func raiseArraySize :: ctx, meta, n, to -> result
+//@ props C14 C07
+//@ nonil
+//@ pure
+//@ rvwrites nothing
+//@ ensures [typed] result != nil && typeof(result) == baseError && result.(baseError).class == ErrConfig
+//@ ensures [reason] result.(baseError).reason == ErrArraySizeMismatch
+//@ ensures [path] result.(baseError).path == pathOfCtx(ctx, ".")
+
+//@ func raiseConversion :: opts, v, err, to -> result
+//@ props C14 C07
+//@ nonil
+//@ requires v != nil
+//@ pure
+//@ rvwrites nothing
+//@ ensures [typed] result != nil && typeof(result) == baseError && result.(baseError).class == ErrConfig
+//@ ensures [reason] result.(baseError).reason == err
+//@ ensures [path] result.(baseError).path == pathOfCtx(ctxof(v), ".")
+//@ ensures [naming !unproved] about(result) == v && reasonOf(result) == err
+
+//@ func raiseInvalidDuration :: v, err -> result
+//@ props C14 C07
+//@ nonil
+//@ requires v != nil
+//@ pure
+//@ rvwrites nothing
+//@ ensures [typed] result != nil && typeof(result) == baseError && result.(baseError).class == ErrConfig
+//@ ensures [reason] result.(baseError).reason == err
+//@ ensures [path] result.(baseError).path == pathOfCtx(ctxof(v), ".")
+//@ ensures [naming !unproved] about(result) == v && reasonOf(result) == err
+
+//@ func raiseInvalidRegexp :: v, err -> result
+//@ props C14 C07
+//@ nonil
+//@ requires v != nil
+//@ pure
+//@ rvwrites nothing
+//@ ensures [typed] result != nil && typeof(result) == baseError && result.(baseError).class == ErrConfig
+//@ ensures [reason] result.(baseError).reason == err
+//@ ensures [path] result.(baseError).path == pathOfCtx(ctxof(v), ".")
+//@ ensures [naming !unproved] about(result) == v && reasonOf(result) == err
+
+//@ func raiseParseSplice :: ctx, meta, err -> result
+//@ props C14 C07
+//@ nonil
+//@ pure
+//@ rvwrites nothing
+//@ ensures [typed] result != nil && typeof(result) == baseError && result.(baseError).class == ErrConfig
+//@ ensures [reason] result.(baseError).reason == err
+//@ ensures [path] result.(baseError).path == pathOfCtx(ctx, ".")
+
+//@ func raiseCyclicErr :: field -> result
+//@ props C14 C08 C07
+//@ pure
+//@ rvwrites nothing
+//@ ensures [typed] result != nil && cyclic(result) && result.(baseError).class == ErrConfig
+
+//@ func raiseExpectedObject :: opts, v -> result
+//@ props C14 C07
+//@ nonil
+//@ requires v != nil
+//@ pure
+//@ rvwrites nothing
+//@ ensures [typed] result != nil && typeof(result) == baseError && result.(baseError).class == ErrConfig && result.(baseError).reason == ErrExpectedObject
+
+//@ func raiseInvalidTopLevelType :: v, meta -> result
+//@ props C14 C07
+//@ sweep
+//@ rvwrites nothing
+//@ ensures [typed] result != nil && typeof(result) == baseError && result.(baseError).class == ErrConfig && result.(baseError).reason == ErrTypeMismatch
+
+//@ func raiseKeyInvalidTypeUnpack :: t, from -> result
+//@ props C14 C07
+//@ nonil
+//@ requires from != nil
+//@ rvwrites nothing
+//@ ensures [typed] result != nil && typeof(result) == criticalError
+//@ ensures [reason] result.(criticalError).baseError.reason == ErrKeyTypeNotString && result.(criticalError).baseError.class == ErrImplementation
+
+//@ func raiseKeyInvalidTypeMerge :: cfg, t -> result
+//@ props C14 C07
+//@ nonil
+//@ requires cfg != nil
+//@ rvwrites nothing
+//@ ensures [typed] result != nil && typeof(result) == criticalError
+//@ ensures [reason] result.(criticalError).baseError.reason == ErrKeyTypeNotString && result.(criticalError).baseError.class == ErrImplementation
+
+//@ func raiseSquashNeedsObject :: cfg, opts, f, t -> result
+//@ props C14 C07
+//@ nonil
+//@ requires cfg != nil && opts != nil
+//@ rvwrites nothing
+//@ ensures [typed] result != nil && typeof(result) == criticalError
+//@ ensures [reason] result.(criticalError).baseError.reason == ErrTypeMismatch && result.(criticalError).baseError.class == ErrImplementation
+
+//@ func raiseInlineNeedsObject :: cfg, f, t -> result
+//@ props C14 C07
+//@ nonil
+//@ requires cfg != nil
+//@ rvwrites nothing
+//@ ensures [typed] result != nil && typeof(result) == criticalError
+//@ ensures [reason] result.(criticalError).baseError.reason == ErrTypeMismatch && result.(criticalError).baseError.class == ErrImplementation
+
+//@ func raiseUnsupportedInputType :: ctx, meta, v -> result
+//@ props C14 C07
+//@ nonil
+//@ rvwrites nothing
+//@ ensures [typed] result != nil && typeof(result) == criticalError
+//@ ensures [reason] result.(criticalError).baseError.reason == ErrTypeMismatch && result.(criticalError).baseError.class == ErrImplementation
+
+//@ func raiseNil :: reason -> result
+//@ props C14 C07
+//@ nonil
+//@ requires reason != nil
+//@ rvwrites nothing
+//@ ensures [typed] result != nil && typeof(result) == criticalError
+//@ ensures [reason] result.(criticalError).baseError.reason == reason && result.(criticalError).baseError.class == ErrImplementation
+
+//@ func raisePointerRequired :: v -> result
+//@ props C14 C07
+//@ nonil
+//@ rvwrites nothing
+//@ ensures [typed] result != nil && typeof(result) == criticalError
+//@ ensures [reason] result.(criticalError).baseError.reason == ErrPointerRequired && result.(criticalError).baseError.class == ErrImplementation
+
+//@ func raiseToTypeNotSupported :: opts, v, goT -> result
+//@ props C14 C07
+//@ nonil
+//@ requires v != nil
+//@ rvwrites nothing
+//@ ensures [typed] result != nil && typeof(result) == criticalError
+//@ ensures [reason] result.(criticalError).baseError.reason == ErrTypeMismatch && result.(criticalError).baseError.class == ErrImplementation
